@@ -40,3 +40,12 @@ package safehtml
 //@   option uses C18.prefix_hyphen_value
 //@   ensures spec: inlang(Ident, r.str)
 //@   ensures layout: seqeq(r.str, cat(prefix, "-", value))
+
+//@ func isSafeURL(url string) (r bool)
+//@   serves C11 C12 C02 C15
+//@   ensures spec: r == inlang(URLAccept, url)
+
+//@ func URLSanitized(url string) (r URL)
+//@   serves C11 C02 C15
+//@   ensures keep: inlang(URLAccept, url) ==> sameview(r.str, url)
+//@   ensures drop: !inlang(URLAccept, url) ==> r.str == "about:invalid#zGoSafez"
